@@ -193,7 +193,7 @@ def _lean_chunk(ops, timeout):
     return [json.loads(l) for l in lines]
 
 
-def lean_batch(ops, timeout=900, jobs=16):
+def lean_batch(ops, timeout=400, jobs=16):
     """Run a batch of operations through the native Lean driver (in parallel chunks); one result per op."""
     if not ops:
         return []
